@@ -39,7 +39,46 @@ pub fn op_hist(args: &[&str]) -> String {
         };
         let tctl = ctl(tf);
         let octl = ctl(sf);
+        // `b<k>`: the k-th write to the BACKING of an io outboard fails (below the `save` call: a save that is
+        // carried out as several storage writes can be torn)
+        let bf = match p[2].split_at(1) {
+            ("b", k) => Some((k.parse().unwrap(), std::io::ErrorKind::Other)),
+            _ => None,
+        };
         let ob_in = std::mem::take(&mut ob);
+        if bf.is_some() {
+            let cio = ctl(bf);
+            let (r, ob_out): (Result<(), bao_tree::io::DecodeError>, Vec<u8>) = match (fl, kind) {
+                ("sync", "preIo") => {
+                    let mut o = PreOrderOutboard { root, tree, data: FBack(ob_in, cio.clone()) };
+                    let r = sync::decode_ranges(&stream[..], &ranges, FWriteAt(&mut target, tctl.clone()), &mut o);
+                    (r, o.data.0)
+                }
+                ("sync", "postIo") => {
+                    let mut o = PostOrderOutboard { root, tree, data: FBack(ob_in, cio.clone()) };
+                    let r = sync::decode_ranges(&stream[..], &ranges, FWriteAt(&mut target, tctl.clone()), &mut o);
+                    (r, o.data.0)
+                }
+                ("fsm", "preIo") => {
+                    let mut t = BytesMut::from(&target[..]);
+                    let mut o = PreOrderOutboard { root, tree, data: FBack(BytesMut::from(&ob_in[..]), cio.clone()) };
+                    let r = block_on(fsm::decode_ranges(&stream[..], ranges.clone(), FSliceWriter(&mut t, tctl.clone()), &mut o));
+                    target = t.to_vec();
+                    (r, o.data.0.to_vec())
+                }
+                ("fsm", "postIo") => {
+                    let mut t = BytesMut::from(&target[..]);
+                    let mut o = PostOrderOutboard { root, tree, data: FBack(BytesMut::from(&ob_in[..]), cio.clone()) };
+                    let r = block_on(fsm::decode_ranges(&stream[..], ranges.clone(), FSliceWriter(&mut t, tctl.clone()), &mut o));
+                    target = t.to_vec();
+                    (r, o.data.0.to_vec())
+                }
+                _ => panic!("b faults need an io outboard"),
+            };
+            ob = ob_out;
+            outs.push(hist_step_out(fl, kind, root, tree, &mut ob, &target, r, &tctl));
+            continue;
+        }
         let (r, ob_out) = match fl {
             "sync" => with_sync_store!(kind, root, tree, ob_in, |o| sync::decode_ranges(
                 &stream[..],
@@ -61,61 +100,81 @@ pub fn op_hist(args: &[&str]) -> String {
             _ => panic!("bad flavour"),
         };
         ob = ob_out;
-        let term = match r {
-            Ok(()) => "Done".to_string(),
-            Err(e) => dec_err(&e),
-        };
-        // what the validator reports now
-        let all = ChunkRanges::all();
-        let valid: Vec<String> = if kind == "empty" {
-            vec![]
-        } else {
-            let vkind = if kind == "preIo" { "preMem" } else if kind == "postIo" { "postMem" } else { kind };
-            let fmt = |r: std::io::Result<std::ops::Range<bao_tree::ChunkNum>>| r.map(|r| format!("{}:{}", r.start.0, r.end.0)).unwrap_or_else(|e| io_err(&e));
-            // the validator of the same flavour as the history (sync iterator / async stream)
-            let (v, ob_back) = if fl == "sync" {
-                with_sync_store!(vkind, root, tree, std::mem::take(&mut ob), |o| sync::valid_ranges(&o, &target[..], &all)
-                    .into_iter()
-                    .map(fmt)
-                    .collect::<Vec<String>>())
-            } else {
-                use futures_lite::StreamExt;
-                let d = bytes::Bytes::from(target.clone());
-                with_fsm_store!(vkind, root, tree, std::mem::take(&mut ob), |o| block_on(async {
-                    let mut res = Vec::new();
-                    let mut s = std::pin::pin!(fsm::valid_ranges(&mut o, d.clone(), &all));
-                    while let Some(r) = s.next().await {
-                        res.push(fmt(r));
-                    }
-                    res
-                }))
-            };
-            ob = ob_back;
-            v
-        };
-        // successful target writes of this step (offset:len)
-        let writes: Vec<String> = {
-            let c = tctl.borrow();
-            c.log
-                .iter()
-                .enumerate()
-                .filter(|(i, _)| c.fail_at.map(|(k, _)| k != *i).unwrap_or(true))
-                .map(|(_, l)| {
-                    let p: Vec<&str> = l.split(' ').collect();
-                    format!("{}:{}", p[1], p[2])
-                })
-                .collect()
-        };
-        outs.push(format!(
-            "{} {} {} V={} W={}",
-            term,
-            dig(&target),
-            dig(&ob),
-            if valid.is_empty() { "-".to_string() } else { valid.join(",") },
-            if writes.is_empty() { "-".to_string() } else { writes.join(",") }
-        ));
+        outs.push(hist_step_out(fl, kind, root, tree, &mut ob, &target, r, &tctl));
     }
     outs.join(" ; ")
+}
+
+/// what one step of a history leaves behind: terminal, target / outboard digests, what the validator of the
+/// history's flavour reports, and the successful target writes of the step
+#[allow(clippy::too_many_arguments)]
+fn hist_step_out(
+    fl: &str,
+    kind: &str,
+    root: blake3::Hash,
+    tree: BaoTree,
+    ob_ref: &mut Vec<u8>,
+    target: &[u8],
+    r: Result<(), bao_tree::io::DecodeError>,
+    tctl: &Ctrl,
+) -> String {
+    let mut ob = std::mem::take(ob_ref);
+    let target: Vec<u8> = target.to_vec();
+    let term = match r {
+        Ok(()) => "Done".to_string(),
+        Err(e) => dec_err(&e),
+    };
+    // what the validator reports now
+    let all = ChunkRanges::all();
+    let valid: Vec<String> = if kind == "empty" {
+        vec![]
+    } else {
+        let vkind = if kind == "preIo" { "preMem" } else if kind == "postIo" { "postMem" } else { kind };
+        let fmt = |r: std::io::Result<std::ops::Range<bao_tree::ChunkNum>>| r.map(|r| format!("{}:{}", r.start.0, r.end.0)).unwrap_or_else(|e| io_err(&e));
+        // the validator of the same flavour as the history (sync iterator / async stream)
+        let (v, ob_back) = if fl == "sync" {
+            with_sync_store!(vkind, root, tree, std::mem::take(&mut ob), |o| sync::valid_ranges(&o, &target[..], &all)
+                .into_iter()
+                .map(fmt)
+                .collect::<Vec<String>>())
+        } else {
+            use futures_lite::StreamExt;
+            let d = bytes::Bytes::from(target.clone());
+            with_fsm_store!(vkind, root, tree, std::mem::take(&mut ob), |o| block_on(async {
+                let mut res = Vec::new();
+                let mut s = std::pin::pin!(fsm::valid_ranges(&mut o, d.clone(), &all));
+                while let Some(r) = s.next().await {
+                    res.push(fmt(r));
+                }
+                res
+            }))
+        };
+        ob = ob_back;
+        v
+    };
+    // successful target writes of this step (offset:len)
+    let writes: Vec<String> = {
+        let c = tctl.borrow();
+        c.log
+            .iter()
+            .enumerate()
+            .filter(|(i, _)| c.fail_at.map(|(k, _)| k != *i).unwrap_or(true))
+            .map(|(_, l)| {
+                let p: Vec<&str> = l.split(' ').collect();
+                format!("{}:{}", p[1], p[2])
+            })
+            .collect()
+    };
+    let out = format!(
+        "{} {} {} V={} W={}",
+        term,
+        dig(&target),
+        dig(&ob),
+        if valid.is_empty() { "-".to_string() } else { valid.join(",") },
+        if writes.is_empty() { "-".to_string() } else { writes.join(",") }
+    );
+    *ob_ref = ob;
+    out
 }
 
 // ---------------- serde (C19) ----------------
